@@ -22,6 +22,7 @@ type MemAcc struct {
 	PostInc  int64
 	Aligned  bool // aligned-only opcode with a memory operand
 	FPSlot   bool // access to the routine's own argument/result frame
+	Index    string // index register (indexed addressing)
 }
 
 type Effect struct {
@@ -85,7 +86,7 @@ func memOf(i int, o Operand, w int, load, store bool) MemAcc {
 	m := MemAcc{Arg: i, Width: w, Load: load, Store: store}
 	switch o.Kind {
 	case OMem:
-		m.Base, m.Off = o.Reg, o.Off
+		m.Base, m.Off, m.Index = o.Reg, o.Off, o.Index
 	case OSym:
 		m.Sym, m.Off = o.Sym, o.Off
 	case OFP:
